@@ -56,6 +56,9 @@ type Res struct {
 	N       int  `json:"n,omitempty"`
 	// Slice: Flatten/Whole results only; 1 or 2: the Go type is a named slice type instead of []T.
 	Slice int `json:"sl,omitempty"`
+	// Nil: a plain (not flattened) group result of type VS whose value is the nil slice: a member like any
+	// other, which carries no token (the group then holds one more zero element).
+	Nil bool `json:"nil,omitempty"`
 }
 
 func (r Res) String() string {
@@ -68,6 +71,9 @@ func (r Res) String() string {
 	}
 	if r.Slice > 0 {
 		s += fmt.Sprintf("(named slice %d)", r.Slice)
+	}
+	if r.Nil {
+		s += "(nil)"
 	}
 	return s
 }
@@ -85,6 +91,8 @@ type Enc struct {
 	// (objects that hold at least one nested object): 5: the nested objects are embedded anonymously and the
 	// object has no dig.In/dig.Out of its own; 6: embedded In/Out first, nested objects embedded anonymously.
 	// 7: as 4, and the first field, when it is a dependency of a method-less struct type, is itself embedded.
+	// 8 (parameter objects): as 5, and a first field that is a dependency of a method-less struct type is
+	// embedded too, AHEAD of the embedded nested objects: struct{ V0; Inner } with Inner struct{ dig.In; ... }.
 	Lay int `json:"lay,omitempty"`
 	// Junk (parameter objects, on an object NESTED in another object and held by a named field): tags on the
 	// field that holds it, which dig ignores for nested parameter objects. 1: optional:"true", 2: name:"zz",
@@ -102,13 +110,16 @@ type Fn struct {
 	HasErr  bool    `json:"e,omitempty"` // error result (trailing unless ErrPos says otherwise)
 	// ErrPos (constructors and decorators with HasErr, dynamic functions only): 0: the error is the last
 	// result; 1: it is the FIRST result; 2: an error result first (it carries the fault) and another one last.
-	ErrPos   int  `json:"ep,omitempty"`
+	ErrPos int `json:"ep,omitempty"`
 	// ErrType 1 (dynamic functions, differential C17 runs only): the error results are declared with the
 	// concrete type *vt.TErr instead of error. The function returns a nil *vt.TErr, which by Go's rules is a
 	// non-nil error once dig stores it in an error: the function counts as failed, in a normal container and
 	// (through the zero value the dry-run invoker fabricates) in a DryRun container alike.
-	ErrType int `json:"et,omitempty"`
+	ErrType  int  `json:"et,omitempty"`
 	Variadic bool `json:"va,omitempty"` // extra trailing variadic parameter (...V7)
+	// LocPC > 0 (constructors): provided with dig.LocationForPC(pc of vt.Loc<LocPC-1>). The location is what dig
+	// reports as the function's name (callback Name, cluster label, error texts); the ID stays the function's own.
+	LocPC int `json:"lpc,omitempty"`
 	// Faults: execution number (1-based) -> "err" | "panic". Key 0 means every execution.
 	Faults map[int]string `json:"f,omitempty"`
 	Pool   int            `json:"pool,omitempty"` // 1+index into the declared pool; 0 = dynamic
